@@ -113,8 +113,11 @@ def set_path(p, path, value):
         setattr(obj, path[-1], value)
 
 
-def run_history(h, ns, g=None, d=None):
+def run_history(h, ns, g=None, d=None, threaded=False):
+    """threaded=True: every operation is carried out by the thread that owns the packet it is issued on (one worker thread per
+    packet name, handed the operation by this thread, which waits for it): a schedule of threads at operation granularity"""
     live, report = {}, []
+    workers = {}
     h_names = sorted({op[1] for op in h if op[0] in ('new', 'parse', 'reparse')}, key=lambda n: int(n[1:]))
     shared_by_user = set()    # ids of objects the USER put in two places (allowed sharing)
     links = []                # groups of packets linked that way
@@ -122,7 +125,7 @@ def run_history(h, ns, g=None, d=None):
     for k, op in enumerate(h):
         before = snapshot(live)
         MON[0] = True
-        try:
+        def do(op=op, k=k):
             if op[0] == 'new':
                 live[op[1]] = build(op[3], ns)
             elif op[0] == 'parse':
@@ -151,6 +154,14 @@ def run_history(h, ns, g=None, d=None):
                 second = live[op[1]].pack()
                 if first != second or json.dumps(canon(live[op[1]]), sort_keys=True) != fields_before:
                     report.append(dict(step=k, op=op, kind='pack-impure', first=first.hex(), second=second.hex()))
+        try:
+            if threaded:
+                from concurrent.futures import ThreadPoolExecutor
+                if op[1] not in workers:
+                    workers[op[1]] = ThreadPoolExecutor(max_workers=1)
+                workers[op[1]].submit(do).result()
+            else:
+                do()
             done = 1
         except Exception as e:
             done = 0
@@ -224,7 +235,9 @@ def run_history(h, ns, g=None, d=None):
             if len(owners) > 1 and i not in below:
                 report.append(dict(step=k, op=op, kind='shared-object', paths=sorted(paths)[:4]))
                 break
-    if g is not None and g.get('solo') and not links:
+    for ex in workers.values():
+        ex.shutdown(wait=True)
+    if g is not None and g.get('solo') and not links and not threaded:
         solo_check(live, g, d, report, h)
     return report, observations
 
@@ -315,6 +328,15 @@ if __name__ == '__main__':
         both = [run_history(h, ns, g, d) for h in g['histories']]
         reports = [b[0] for b in both]
         observations = [b[1] for b in both]
+        # the same histories with every packet owned by its own thread: same raises, same packets after every operation
+        sched_bad = []
+        for hi, h in enumerate(g['histories']):
+            _, obs_t = run_history(h, ns, None, None, threaded=True)
+            a = [[o['seq'][0], o['canon']] for o in observations[hi]]
+            b = [[o['seq'][0], o['canon']] for o in obs_t]
+            if a != b:
+                k = next(i for i in range(len(a)) if i >= len(b) or a[i] != b[i])
+                sched_bad.append(dict(history=hi, step=k, single_thread=a[k], one_thread_per_packet=b[k] if k < len(b) else None))
         th = run_threads(g['threads'], ns) if g.get('threads') else None
-        out['groups'].append(dict(defs=res['defs'], reports=reports, observations=observations, writes=sorted(set(map(tuple, WRITES))), threads=th))
+        out['groups'].append(dict(defs=res['defs'], reports=reports, observations=observations, writes=sorted(set(map(tuple, WRITES))), threads=th, scheduled=dict(n=len(g['histories']), bad=sched_bad[:5])))
     json.dump(out, open(sys.argv[2], 'w'))
